@@ -75,10 +75,15 @@ func (k Keeper) verifySignature(ctx sdk.Context, owner string, proposal Proposal
 	if parsedKid, perr := saodidparser.Parse(kid); perr == nil && parsedKid.Method == "sid" {
 		// the document version named in the kid must be a version of the signer DID itself, not the
 		// document of some other sid
+		// pick the version parameter exactly as the sid resolver does (first query part that mentions it), so
+		// that the version checked here is the version the signature was verified against
 		versionId := ""
 		for _, q := range strings.Split(parsedKid.Query, "&") {
-			if strings.HasPrefix(q, "version-id=") || strings.HasPrefix(q, "versionId=") {
-				versionId = strings.SplitN(q, "=", 2)[1]
+			if strings.Contains(q, "versionId") || strings.Contains(q, "version-id") {
+				if kv := strings.Split(q, "="); len(kv) > 1 {
+					versionId = kv[1]
+				}
+				break
 			}
 		}
 		if versionId != "" {
